@@ -58,7 +58,24 @@ func runC08(p *Program, r *Result) {
 		}
 		t := tb.Term(c.Common().Args[1]).String()
 		footer := strings.Trim(specConst(r, "armor.Footer"), `"`)
-		return strings.Contains(t, footer)
+		if strings.Contains(t, footer) {
+			return true
+		}
+		// assembled in a local strings.Builder / bytes.Buffer and written in one piece
+		if rd, ok := stripConv(c.Common().Args[1]).(*ssa.Call); ok && len(rd.Call.Args) == 1 {
+			if n := calleeName(&rd.Call); n == "(*strings.Builder).String" || n == "(*bytes.Buffer).String" {
+				if al, ok := rd.Call.Args[0].(*ssa.Alloc); ok && al.Referrers() != nil {
+					for _, ref := range *al.Referrers() {
+						if w, ok := ref.(*ssa.Call); ok && len(w.Call.Args) == 2 && strings.HasSuffix(calleeName(&w.Call), ").WriteString") {
+							if strings.Contains(tb.Term(w.Call.Args[1]).String(), footer) {
+								return true
+							}
+						}
+					}
+				}
+			}
+		}
+		return false
 	}
 	startedTrue := func(a Atom) bool {
 		return a.Kind == "bool" && a.Pol && short(a.X.String()) == "Field(Recv.started)"
@@ -336,8 +353,11 @@ func runC08(p *Program, r *Result) {
 			switch {
 			case et == "P1" && isEOF:
 				nEOF++
-			case et == "armor.Error{err: P1}" && notEOF:
+			case et == "armor.Error{err: P1}" && (notEOF || len(c.facts) > 0):
+				// (under P1 != io.EOF, or in one arm of a chain of tests whose io.EOF arm is P1)
 				nWrap++
+			case et == "P1" && hasTypedFact(c.facts):
+				// already an *armor.Error: handed on as it is
 			default:
 				ok = false
 			}
@@ -469,4 +489,15 @@ func isDecodeCount(t *Term) bool {
 	}
 	s := t.String()
 	return strings.Contains(s, "base64.Encoding).Decode(") && strings.HasSuffix(s, ".0") && t.Op == "Ext"
+}
+
+// hasTypedFact: the facts say that the parameter already is an *armor.Error (a successful
+// comma-ok assertion).
+func hasTypedFact(facts []Atom) bool {
+	for _, a := range facts {
+		if a.Kind == "bool" && a.Pol && a.X != nil && strings.HasPrefix(short(a.X.String()), "Assert[*armor.Error](P1).1") {
+			return true
+		}
+	}
+	return false
 }
